@@ -67,9 +67,23 @@ class RouteFn:
         return [list(x) if isinstance(x, list) else x for x in r]
 
 
+class JockeyDirect(ciw.routing.Direct):
+    """Direct routing whose customers, when they renege, jockey to a given node instead of leaving (a user-defined router
+    as the documentation describes: only next_node_for_jockeying is overridden)."""
+
+    def __init__(self, to, jock):
+        super().__init__(to=to)
+        self.jock = jock
+
+    def next_node_for_jockeying(self, ind):
+        return self.simulation.nodes[self.jock]
+
+
 def _node_router(r):
     k = r['kind']
     R = ciw.routing
+    if k == 'jockey':
+        return JockeyDirect(to=r['to'], jock=r['jock'])
     if k == 'direct':
         return R.Direct(to=r['to'])
     if k == 'leave':
